@@ -511,9 +511,9 @@ func synBounds(tier string) mergeBounds {
 
 func init() {
 	run.Register(&run.Def{
-		ID:    "C13",
-		Level: "model_checking",
-		Rule: "explicit-state exploration of the merge state space restricted to a synonym menu of 6 segment shapes (same synonyms with different internal ids in different inputs; a term defined in several segments; a thesaurus present in only one input; two definers of one term; a segment without synonyms; an empty batch), inputs in memory or re-opened; transitions = Merge(ordered list of <=3 states, EVERY drop vector incl. all definers of a term / all documents of a thesaurus deleted); distinct depth-1 states (canonical key from the reference model) are merged again at depth 2 (and 3 in thorough). Oracle in every state: for every (thesaurus, term, exclusion bitmap) the (synonym, doc) pairs == reference of the survivors under the new numbering, terms without survivors absent, ordinary dictionaries unaffected. Non-trivial = merge with >= 1 survivor.",
+		ID:          "C13",
+		Level:       "model_checking",
+		Rule:        "explicit-state exploration of the merge state space restricted to a synonym menu of 6 segment shapes (same synonyms with different internal ids in different inputs; a term defined in several segments; a thesaurus present in only one input; two definers of one term; a segment without synonyms; an empty batch), inputs in memory or re-opened; transitions = Merge(ordered list of <=3 states, EVERY drop vector incl. all definers of a term / all documents of a thesaurus deleted); distinct depth-1 states (canonical key from the reference model) are merged again at depth 2 (and 3 in thorough). Oracle in every state: for every (thesaurus, term, exclusion bitmap) the (synonym, doc) pairs == reference of the survivors under the new numbering, terms without survivors absent, ordinary dictionaries unaffected. Non-trivial = merge with >= 1 survivor.",
 		Assumptions: batchAssumptions,
 		Bounds: map[string]string{
 			"quick":    "lists <=2 over 6 items + triples over 4 items, every drop vector, depth 2 with 3 items",
